@@ -1100,6 +1100,7 @@ func run(c *vf.Ctx) {
 	defer o.stop()
 	var sshCfgs []cfg
 	var unsupported []string
+	reduced := 0
 	for _, cf := range cfgs {
 		miss := ""
 		switch {
@@ -1114,6 +1115,13 @@ func run(c *vf.Ctx) {
 		}
 		if miss != "" {
 			unsupported = append(unsupported, miss)
+			continue
+		}
+		if !c.Thorough && cf.layer == "kex x hostkey" && (strings.Contains(cf.kex, "group16") || strings.Contains(cf.kex, "group-exchange")) &&
+			!has([]string{"ssh-ed25519", "rsa-sha2-512", "ecdsa-sha2-nistp256-cert-v01@openssh.com", "ssh-dss"}, cf.algo) {
+			// quick tier: the 3072/4096-bit exchanges are driven with four host key algorithms
+			// only (every algorithm is still paired with every other key exchange); thorough: all
+			reduced++
 			continue
 		}
 		// client-initiated re-keys too: for every cipher x MAC pair (cheap kex) in the quick tier, for everything in the thorough tier
@@ -1133,5 +1141,5 @@ func run(c *vf.Ctx) {
 		}
 	}
 	c.Set("external_oracle", fmt.Sprintf("%s (client only): %d configurations driven against the Go server over loopback TCP; not supported by this OpenSSH: %s; "+
-		"no sshd in the image, so Go client -> OpenSSH server is not exercised", o.version, len(sshCfgs), strings.Join(unsupported, ", ")))
+		"%d large-group configurations left to the thorough tier; no sshd in the image, so Go client -> OpenSSH server is not exercised", o.version, len(sshCfgs), strings.Join(unsupported, ", "), reduced))
 }
